@@ -200,7 +200,8 @@ def location_section(rng, thorough, rundir, model_run, res, count):
     alpha = ["a", "b", ":", ":", "/", "\\", ".", "é", "'", " "]
     for _ in range(200 if thorough else 40):
         s_ = "".join(rng.pick(alpha) for _ in range(rng.range(1, 6)))
-        if not s_.startswith("-") and "\x00" not in s_:
+        # local candidates are scanned by the real tool: keep them inside the sandbox (no absolute paths, no `..`, not the cwd itself)
+        if not s_.startswith("-") and not s_.startswith("/") and ".." not in s_ and s_.strip("./ ") != "":
             strings.append(s_)
     ops, impl = [], []
     for x in strings:
